@@ -39,9 +39,13 @@ def R (a b : Tok) : Prop := (b.retries ≤ a.retries → a.id < b.id) ∧ (a.ret
 
 def Desc (l : List Tok) : Prop := l.Pairwise (fun a b => b.retries ≤ a.retries)
 
-/-- behind a fin chaser of level `k` the arrival stream has only fresh tokens and tokens above `k` -/
-def Beh (l : List Tok) : Prop :=
-  l.Pairwise (fun a b => a.kind = .fin → b.kind = .data → b.retries = 0 ∨ a.retries < b.retries)
+/-- a data token `b` behind the fin chaser `a`: fresh, or above the chaser's level, or at most at the level of a
+    lower chaser that is still expected (a token of an older broker worker that is still draining) -/
+def Cov (e : Nat → Bool) (a b : Tok) : Prop :=
+  a.kind = .fin → b.kind = .data →
+    b.retries = 0 ∨ a.retries < b.retries ∨ ∃ k, k < a.retries ∧ e k = true ∧ b.retries ≤ k
+
+def Beh (e : Nat → Bool) (l : List Tok) : Prop := l.Pairwise (Cov e)
 
 def finLevels (l : List Tok) : List Nat := (l.filter isFin).map (·.retries)
 
@@ -55,7 +59,7 @@ structure VInv (v : View) : Prop where
   gbad  : v.good = false → v.gw = []
   hi    : Desc ((data v.av).filter (fun t => decide (v.pp.hwm < t.retries)))
   cap   : v.good = true → ∀ x ∈ data v.av, x.retries ≤ v.pp.hwm
-  beh   : Beh v.av
+  beh   : Beh v.pp.expect v.av
   fin1  : ∀ f ∈ v.av, f.kind = .fin → 1 ≤ f.retries ∧ f.retries ≤ v.pp.hwm ∧ v.pp.expect f.retries = true
   fin2  : (finLevels v.av).Nodup
   nosyn : ∀ x ∈ v.av, x.kind ≠ .syn
@@ -93,7 +97,7 @@ theorem VInv.shrink {v' v : View} (h : VInv v) (s : Shrink v' v) : VInv v' := by
   · intro hg; have := h.gbad (by rw [← s.good]; exact hg); have h2 := s.gw; rw [this] at h2; exact List.eq_nil_of_sublist_nil h2
   · rw [s.pp]; exact h.hi.sublist ((data_sublist s.av).filter _)
   · intro hg x hx; rw [s.pp]; exact h.cap (by rw [← s.good]; exact hg) x ((data_sublist s.av).subset hx)
-  · exact h.beh.sublist s.av
+  · rw [s.pp]; exact h.beh.sublist s.av
   · intro f hf hk; rw [s.pp]; exact h.fin1 f (s.av.subset hf) hk
   · simp only [finLevels, s.fins]; exact h.fin2
   · intro x hx; exact h.nosyn x (s.av.subset hx)
@@ -300,7 +304,23 @@ theorem VInv.finDrop {v : View} (h : VInv v) (f : Tok) (rest : List Tok) (hav : 
   · intro g hg x hx; refine h.low g hg x ?_; rw [hd0]; exact hx
   · have := h.hi; rw [hd0] at this; exact this
   · intro hg x hx; exact h.cap hg x (by rw [hd0]; exact hx)
-  · have h0 := h.beh; rw [hav] at h0; exact (List.pairwise_cons.1 h0).2
+  · have h0 := h.beh; rw [hav] at h0
+    obtain ⟨hhead, htail⟩ := List.pairwise_cons.1 h0
+    refine List.Pairwise.imp_of_mem ?_ htail
+    intro a b _ hb hab ha hbk
+    rcases hab ha hbk with h1 | h1 | ⟨k, hk1, hk2, hk3⟩
+    · exact Or.inl h1
+    · exact Or.inr (Or.inl h1)
+    · by_cases hkf : k = f.retries
+      · subst hkf
+        rcases hhead b hb hf hbk with g1 | g1 | ⟨k2, g1, g2, g3⟩
+        · exact Or.inl g1
+        · omega
+        · refine Or.inr (Or.inr ⟨k2, by omega, ?_, g3⟩)
+          have : ¬ k2 = f.retries := by omega
+          simp only [finV, PartProd.setExp, this, ↓reduceIte]; exact g2
+      · refine Or.inr (Or.inr ⟨k, hk1, ?_, hk3⟩)
+        simp only [finV, PartProd.setExp, hkf, ↓reduceIte]; exact hk2
   · intro g hg hk
     have h1 := h.fin1 g (by rw [hav]; exact List.mem_cons_of_mem _ hg) hk
     refine ⟨h1.1, h1.2.1, ?_⟩
@@ -319,7 +339,8 @@ theorem VInv.finDrop {v : View} (h : VInv v) (f : Tok) (rest : List Tok) (hav : 
   · exact ⟨h.pinv.above, h.pinv.typed⟩
 
 theorem finDrop_Z {v : View} (h : VInv v) (f : Tok) (rest : List Tok) (hav : v.av = f :: rest)
-    (hf : f.kind = .fin) : ∀ y ∈ data rest, y.retries = 0 ∨ f.retries < y.retries := by
+    (hf : f.kind = .fin) : ∀ y ∈ data rest, y.retries = 0 ∨ f.retries < y.retries ∨
+      ∃ k, k < f.retries ∧ v.pp.expect k = true ∧ y.retries ≤ k := by
   intro y hy
   have h0 := h.beh
   rw [hav] at h0
@@ -366,7 +387,7 @@ theorem head_vs_rest {v : View} (h : VInv v) {x : Tok} {rest : List Tok} (hav : 
 theorem tail_clauses {v : View} (h : VInv v) {x : Tok} {rest : List Tok} (hav : v.av = x :: rest)
     (hx : isData x = true) (hl : x.retries ≤ v.pp.hwm) :
     Desc ((data rest).filter (fun t => decide (v.pp.hwm < t.retries))) ∧
-    (v.good = true → ∀ y ∈ data rest, y.retries ≤ v.pp.hwm) ∧ Beh rest ∧
+    (v.good = true → ∀ y ∈ data rest, y.retries ≤ v.pp.hwm) ∧ Beh v.pp.expect rest ∧
     (∀ f ∈ rest, f.kind = .fin → 1 ≤ f.retries ∧ f.retries ≤ v.pp.hwm ∧ v.pp.expect f.retries = true) ∧
     (finLevels rest).Nodup ∧ (∀ y ∈ rest, y.kind ≠ .syn) := by
   have hd0 : data v.av = x :: data rest := by rw [hav, data_cons_data _ hx]
